@@ -126,6 +126,7 @@ type PathResult struct {
 	Trace         *opTrace
 	StageL        int
 	StageG        int
+	Opaque        int // secrecy obligations discharged by the term walk (ideal-crypto derivability)
 	BoundTooSmall int
 }
 
@@ -381,6 +382,16 @@ func idealAxioms(asserts []*Term) []*Term {
 				out = append(out, mkEq(app("str.len", SInt, as[i]), mkInt(n)))
 			} else if name == "HMAC" || name == "SHA256" || name == "SHA1" {
 				out = append(out, mkGe(mkLen(as[i]), mkInt(1)))
+			}
+			if _, ok := knownLen(as[i]); !ok {
+				switch name {
+				case "Enc": // AES-GCM: ciphertext and 16-byte tag
+					out = append(out, mkEq(mkLen(as[i]), mkAdd(mkLen(as[i].args[2]), mkInt(16))))
+				case "CFBenc": // stream cipher: length preserving
+					out = append(out, mkEq(mkLen(as[i]), mkLen(as[i].args[2])))
+				case "hex_enc":
+					out = append(out, mkEq(mkLen(as[i]), mkMul(mkLen(as[i].args[0]), mkInt(2))))
+				}
 			}
 			if strings.HasPrefix(name, "b64enc_") {
 				// what the encoder produced decodes, to the same bytes
